@@ -2185,7 +2185,7 @@ impl CharacterDataMut for XmlText {
     }
 
     fn delete_data(&self, offset: usize, count: usize) -> error::Result<()> {
-        if self.length() < (offset + count) {
+        if self.length() < offset {
             Err(error::DomException::IndexSizeErr)?
         } else {
             self.data.borrow_mut().delete(offset, count);
@@ -2340,7 +2340,7 @@ impl CharacterDataMut for XmlComment {
     }
 
     fn delete_data(&self, offset: usize, count: usize) -> error::Result<()> {
-        if self.length() < (offset + count) {
+        if self.length() < offset {
             Err(error::DomException::IndexSizeErr)?
         } else {
             self.data.borrow_mut().delete(offset, count);
@@ -2524,7 +2524,7 @@ impl CharacterDataMut for XmlCDataSection {
     }
 
     fn delete_data(&self, offset: usize, count: usize) -> error::Result<()> {
-        if self.length() < (offset + count) {
+        if self.length() < offset {
             Err(error::DomException::IndexSizeErr)?
         } else {
             self.data.borrow_mut().delete(offset, count);
